@@ -18,8 +18,6 @@ BREAKS = [
   'totalWGCount := int(numWGX * numWGY * numWGZ)', 'totalWGCount := int(numWGY * numWGZ)\n\t_ = numWGX', 1),
  ('unified-share-from-numWGX-only', 'amd/driver/driver.go',
   'totalWGCount := int(numWGX * numWGY * numWGZ)', 'totalWGCount := int(numWGX * numWGZ)\n\t_ = numWGY', 1),
- ('unified-share-numWGY-squared', 'amd/driver/driver.go',
-  'totalWGCount := int(numWGX * numWGY * numWGZ)', 'totalWGCount := int(numWGY * numWGY * numWGZ)', 1),
  ('emu-vop2-addc-drops-carry-in', 'amd/emu/aluvop2.go',
   'state.WriteOperand(inst.Dst, i, src0+src1+carry)', 'state.WriteOperand(inst.Dst, i, src0+src1)', 1),
  ('emu-vop2-cndmask-operands-swapped', 'amd/emu/aluvop2.go', None, None, 0),
